@@ -444,6 +444,7 @@ func (r *Run) restartFull(rewrite, newChain bool) StepResult {
 		r.stop = true
 		return StepResult{}
 	}
+	newChain = newChain && !r.w.commit
 	st := Step{Kind: "restart", Rewrite: rewrite, NewChain: newChain, Desc: "zero-height restart: prepare, export, wipe the module store, import"}
 	if newChain {
 		st.Desc += " (the new chain starts at height 1)"
@@ -452,7 +453,7 @@ func (r *Run) restartFull(rewrite, newChain bool) StepResult {
 		st.Desc += " (genesis re-written: lists reversed, disabled time of available bindings = Unix epoch)"
 	}
 	res := r.w.Restart(rewrite)
-	if newChain && res.OK {
+	if newChain && res.OK && !r.w.commit {
 		r.w.height = 1
 	}
 	r.after(st, nil, res)
